@@ -258,12 +258,12 @@ theorem uniform_accepts {S : Schema} {t : TypeId} (hU : InlineUniform S t) (q : 
 theorem botLOK_gap (S : Schema) (hdet : DetS S) (hleaf : LeafOk S) (hts : TextStableP S) {ty0 : TypeId} {a0 : Attrs}
     {m0 : Marks} {K : List Node} {f : Nat} {rf : RPos} (hf : (Node.elem ty0 a0 m0 K).resolve f = some rf)
     (hv : S.checkNode (.elem ty0 a0 m0 K) = true) (hU : InlineUniform S (S.tyOf rf.parent)) (X Gc : List Node)
-    (hX : sigOf S X = sigOf S (rf.parent.kids.take (rf.indexAfter rf.depth)))
-    (hfit' : ∀ q, S.contentMatchAt (S.tyOf rf.parent) rf.parent.kids (rf.indexAfter rf.depth) = some q →
-      ∃ fit', fillOpt S (S.dfa (S.tyOf rf.parent)) q (S.types Gc) true = .ok (some fit'))
-    (hmG : MarksOK S (S.tyOf rf.parent) Gc) : BotLOK S rf (fappend X Gc) := by
-  intro q hq fill after H2 hfill hH2 hm2
-  obtain ⟨fit', hfit⟩ := hfit' q hq
+    (hX : sigOf S X = sigOf S (rf.parent.kids.take (rf.indexAfter rf.depth))) (q : Nat)
+    (hq : S.contentMatchAt (S.tyOf rf.parent) rf.parent.kids (rf.indexAfter rf.depth) = some q)
+    (hfit' : ∃ fit', fillOpt S (S.dfa (S.tyOf rf.parent)) q (S.types Gc) true = .ok (some fit'))
+    (hmG : MarksOK S (S.tyOf rf.parent) Gc) : BotLOK S rf q (fappend X Gc) := by
+  intro fill after H2 hfill hH2 hm2
+  obtain ⟨fit', hfit⟩ := hfit'
   obtain ⟨hvD, _, _⟩ := level_check S hf hv rf.depth (Nat.le_refl _)
   -- the two fillings
   have hft := fillBeforeNodes_types S _ _ _ _ _ (liftRaise_ok hfill)
@@ -470,8 +470,8 @@ theorem close_around_applies (S : Schema) (hdet : DetS S) (hleaf : LeafOk S) (hf
   have Rf := resolve_resolved hf
   have Rt := resolve_resolved ht
   have Rg := resolve_resolved htg
-  obtain ⟨_, _, hlen0, hfr0⟩ := fitInit_spec S hf Slice.empty st0 h0
-  have hF : FrontierOf S rf st0.frontier := ⟨hlen0, hfr0⟩
+  obtain ⟨_, hpl0, qD, hcmD, hF, hqtop⟩ := frontierOf_init S hf Slice.empty st0 h0
+  have hlen0 := hF.1
   -- what `must_move_inline` tested
   obtain ⟨top, fit', after, htop, htb, hfits, hafter, hp⟩ := mustMoveInline_spec S _ rt _ p hmi
   have hE : 1 ≤ rt.depth := by
@@ -526,7 +526,10 @@ theorem close_around_applies (S : Schema) (hdet : DetS S) (hleaf : LeafOk S) (hf
     simp
   rw [hBl] at hsG
   -- the textblock `from` is in: its automaton is uniform, the moved content is accepted there
-  obtain ⟨qD, hqD, hcmD⟩ := hfr0 rf.depth (Nat.le_refl _)
+  obtain ⟨qD', hqD, hfs⟩ := hF.2 rf.depth (Nat.le_refl _)
+  rw [frontSt_top] at hfs
+  simp only [Option.some.injEq] at hfs
+  subst hfs
   rw [hlen0, Nat.add_sub_cancel, hqD] at htop
   simp only [Option.some.injEq] at htop
   subst htop
@@ -537,14 +540,8 @@ theorem close_around_applies (S : Schema) (hdet : DetS S) (hleaf : LeafOk S) (hf
     refine inlineUniform_of_B S hiu _ ?_
     simp only [Schema.isTextblockO, Bool.and_eq_true] at htb
     exact htb.2
-  have hbLok := botLOK_gap S hdet hleaf hts hf hv hU _ _ hsX'
-    (fun q hq => by
-      have hq2 : q = qD := by
-        have : S.contentMatchAt (S.tyOf rf.parent) rf.parent.kids (rf.indexAfter rf.depth) = some qD := hcmD
-        rw [hq] at this
-        exact Option.some.inj this
-      subst hq2
-      exact ⟨fit', by rw [sigOf_types S hsG]; exact hfillG⟩)
+  have hbLok := botLOK_gap S hdet hleaf hts hf hv hU _ _ hsX' qD hcmD
+    ⟨fit', by rw [sigOf_types S hsG]; exact hfillG⟩
     (sigOf_marksOK S _ hsG (invalidMarks_false S _ _ himG))
   -- the gap as a slice
   have hslice := slice_to_end ht hn hpt
@@ -577,8 +574,9 @@ theorem close_around_applies (S : Schema) (hdet : DetS S) (hleaf : LeafOk S) (hf
       rw [e, ← hGtoks, getLast?_append_ne _ _ hem]
       exact hl
   -- the replace with the gap content in place
+  rw [hpl0] at hcf
   obtain ⟨ffsB, fills, tail, b, hlenB, htfF, htft, hnorm, X, hX⟩ := close_core S hdet hleaf hfl hcl hts hjc hro hf htg hv hn
-    hattrs hpf hgpair (by omega) st0 h0 mv placed hcf _ (fappend _ _) hnG
+    hattrs hpf hgpair (by omega) st0.frontier qD [] hF hqtop mv placed hcf _ (fappend _ _) hnG
     (by rw [fappend_toks, htkX]) (fappend_norm _ _ hnX hnG) (fappend_checkKids S _ _ hkX hkG) hbLok
     (fun Xn T hXn _ _ => seams_gap (ftoks K) _ Xn f T hKn (by rw [ftoks_length]; exact Rf.le) haf hXn hlast)
   -- the step
